@@ -2001,8 +2001,10 @@ def _judge_marked_sections(P: Ctx, rep: Report, cbmap: dict, mb) -> None:
         problems.append(f"the terminator written is always {got[None]!r}, html.parser strips {sorted(want_lits)} depending on the keyword")
     else:
         kws = None
-        if isinstance(selector, ast.Compare) and len(selector.ops) == 1 and isinstance(selector.ops[0], ast.In) and isinstance(selector.comparators[0], (ast.Set, ast.Tuple, ast.List)):
-            kws = frozenset(e.value for e in selector.comparators[0].elts if isinstance(e, ast.Constant))
+        if isinstance(selector, ast.Compare) and len(selector.ops) == 1 and isinstance(selector.ops[0], ast.In):
+            coll = _const_collection(P, selector.comparators[0])
+            if coll is not None:
+                kws = frozenset(coll)
         if kws is None:
             raise Unsupported(f"{cb.fq}: terminator selected by `{short(selector, 40)}`")
         where = _keyword_cut(selector.left, payload)
@@ -2027,6 +2029,24 @@ def _judge_marked_sections(P: Ctx, rep: Report, cbmap: dict, mb) -> None:
         rep.violation("C16.R3", key, site, "unknown_decl: " + "; ".join(problems) + " - `<![CDATA[x<y]]>` is rendered as `<!CDATA[x<y>` (its content becomes live markup) and `<![if !IE]>` as `<!if !IE>`")
     else:
         rep.ok("C16.R3", key, site, f"{got_pre!r} .. " + " / ".join(repr(t) for t in got.values()))
+
+
+def _const_collection(P: Ctx, e: ast.expr) -> set | None:
+    """Value of a constant collection of strings used in a membership test: a literal, a module-level constant
+    (also wrapped in set()/frozenset(), unions), or a class attribute of the parser that aliases one (`self.X`, `HtmlToAst.X`)."""
+    if isinstance(e, ast.Attribute) and isinstance(e.value, ast.Name) and (e.value.id in ("self", "cls") or e.value.id == P.parser.name):
+        for st in P.parser.node.body:
+            tgt = st.targets[0] if isinstance(st, ast.Assign) and len(st.targets) == 1 else getattr(st, "target", None)
+            if isinstance(st, (ast.Assign, ast.AnnAssign)) and _is_name(tgt, e.attr) and st.value is not None:
+                return _const_collection(P, st.value)
+        return None
+    try:
+        v = _eval_names(P.m, e)
+    except (Unsupported, AnchorMissing):
+        return None
+    if isinstance(v, (set, frozenset, tuple, list)) and all(isinstance(x, str) for x in v):
+        return set(v)
+    return None
 
 
 def _keyword_cut(e: ast.expr, payload: str) -> tuple[str, str, bool] | None:
